@@ -92,15 +92,16 @@ def _stage1_plans(quick):
     live_d8 = SAFETY + "INVARIANT Inv_HangOnlyD8\nPROPERTY QuiescentOrD8\n"
     if quick:
         # one of each kind on the smallest constants: no closer / closer x block
-        grid = [(1, True, False, False, 2, ("ok", "okclose", "fail")), (2, False, False, True, 1, ("ok", "okclose", "fail")),
-                (1, True, True, True, 1, ("ok", "okclose", "fail")), (1, False, True, False, 1, ("ok", "fail"))]
+        grid = [(1, True, False, False, 2, ("ok", "okclose", "fail")), (2, False, False, True, 1, ("ok", "okclose", "fail", "partial")),
+                (1, True, True, True, 1, ("ok", "fail", "partial")), (1, False, True, False, 1, ("ok", "fail"))]
     else:
         grid = []
         for m in (1, 2):
             for block in (True, False):
                 for closer in (False, True):
-                    grid.append((m, block, closer, (m == 2) != closer, 1 if closer else 2,
-                                 ("ok", "okclose", "fail") if (closer or (m == 1 and block)) else ("ok", "fail")))
+                    stream = (m == 2) != closer
+                    oc = ("ok", "okclose", "fail") if (closer or (m == 1 and block)) else ("ok", "fail")
+                    grid.append((m, block, closer, stream, 1 if closer else 2, oc + (("partial",) if stream else ())))
     for m, block, closer, stream, reqs, outcomes in grid:
         kw = dict(nt=2, closer=closer, m=m, block=block, stream=stream, reqs=reqs, outcomes=outcomes)
         plans.append((f"as-is m={m} block={block} closer={closer} stream={stream}", kw,
@@ -126,6 +127,9 @@ def _stage1_plans(quick):
     # a checkout that reads the queue reference by a statement of its own hangs OUTSIDE the recorded D8 class
     plans.append(("dev LoadOnce", dict(nt=2, closer=True, m=1, block=True, reqs=1, outcomes=("ok",), dev=("LoadOnce",)),
                   SAFETY + "INVARIANT Inv_HangOnlyD8\n", ["Inv_HangOnlyD8"]))
+    # release_conn() of an unfinished response must close the connection BEFORE it puts it back
+    plans.append(("dev PutBeforeClose", dict(nt=2, m=1, block=True, reqs=1, stream=True, outcomes=("ok", "partial"),
+                                             dev=("PutBeforeClose",)), SAFETY, ["Inv_ExclusiveUse", "Inv_OwnResponse"]))
     plans.append(("dev NoBlockRaise", dict(nt=2, m=1, block=True, reqs=1, outcomes=("ok",), dev=("NoBlockRaise",)), SAFETY,
                   ["Inv_BlockBound", "Inv_ClosedPoolOutcome"]))
     if not quick:
@@ -153,7 +157,7 @@ def _coverage(out):
     for m in _COVLINE.finditer(out):
         ln, c0, c1 = int(m.group(2)), int(m.group(3)), int(m.group(5))
         text = src[ln - 1][c0 - 1:c1] if int(m.group(4)) == ln else m.group(1)      # the use site, e.g. Crit(G1(t), t, "test")
-        a = re.search(r"\b(Start|G1|G2|G3S|G3|G4|Send|Recv|Fin|RespRead|RespRelease|P2|P3Log|P3|P4|PEnd|End|C0|C1|C2|C3|Drop)\b", text)
+        a = re.search(r"\b(Start|G1|G2|G3S|G3|G4|Send|Recv|Fin|RespRead|RelClose|RespRelease|P2|P3Log|P3|P4|PEnd|End|C0|C1|C2|C3|Drop)\b", text)
         if a:
             d, t = cov.get(a.group(1), (0, 0))
             cov[a.group(1)] = (d + int(m.group(7)), t + int(m.group(6)))
@@ -190,7 +194,7 @@ def stage1(rep, quick):
                               {"kind": "design", "plan": name, "tail": r.out[-4000:]})
             for a, (d, t) in _coverage(r.out).items():
                 cov_all[a] += t
-    need = ["Start", "G1", "G2", "G3", "G4", "Send", "Recv", "Fin", "RespRead", "RespRelease", "P2", "P3", "P4", "PEnd",
+    need = ["Start", "G1", "G2", "G3", "G4", "Send", "Recv", "Fin", "RespRead", "RelClose", "RespRelease", "P2", "P3", "P4", "PEnd",
             "End", "C0", "C1", "C2", "Drop"]
     missing = [a for a in need if cov_all.get(a, 0) == 0]
     if missing:
@@ -223,7 +227,8 @@ def configurations(quick, seed):
                         reqs = 1 if (closer or nt == 3) else 2
                         failing = str(rng.randint(1, nt))
                         other = str(rng.choice([t for t in range(1, nt + 1) if str(t) != failing]))
-                        script = {failing: ["fail", "ok"], other: ["okclose"] if reqs == 2 else ["ok"]}
+                        script = {failing: ["fail", "ok"],
+                                  other: ["partial"] if stream else (["okclose"] if reqs == 2 else ["ok"])}
                         out.append(dict(maxsize=m, block=block, closer=closer, stream=stream, nthreads=nt, reqs=reqs,
                                         script=script, retries=1))
     return out
@@ -555,8 +560,10 @@ def run(rep):
         # stage 2: orderings emitted by TLC (2 threads x 1 request, with / without closer)
         ekws = [dict(nt=2, closer=closer, m=1, block=block, reqs=1, stream=False, outcomes=("ok", "fail"))
                 for closer in (False, True) for block in (True, False)]
+        ekws.append(dict(nt=2, closer=False, m=1, block=True, reqs=1, stream=True, outcomes=("ok", "partial")))
         if not quick:
-            ekws += [dict(nt=2, closer=True, m=2, block=block, reqs=1, stream=True, outcomes=("ok", "fail")) for block in (True, False)]
+            ekws += [dict(nt=2, closer=True, m=2, block=block, reqs=1, stream=True, outcomes=("ok", "fail", "partial"))
+                     for block in (True, False)]
         with ThreadPoolExecutor(JVMS) as ex:
             emitted = list(ex.map(_emit_job, ekws))
         djobs = []
